@@ -485,6 +485,95 @@ theorem ThrOK.other_completing {s s' : St} {t u : Tid} {l : Loc} {q : Seq} (h : 
     · rw [e]; exact e_ttl
     · rw [e_cells _ e]
 
+/-- `raising` is not mentioned by the invariant -/
+theorem ThrOK.setRaising {s : St} {t : Tid} {l : Loc} (b : Bool) (h : ThrOK s t l) :
+    ThrOK s t { l with raising := b } :=
+  ⟨h.bg_pc, h.seq_issued, h.at_c1, h.at_c2, h.cb_pc, h.completing, h.data_answer, h.at_w10, h.result_ok,
+    h.self_dispatch, h.dl_ttl, h.wdl_le⟩
+
+/-- the thread becomes an idle client: nothing is claimed about it except its result -/
+theorem thrOK_idle {s : St} {t : Tid} {l l' : Loc} (h : ThrOK s t l) (hpc : l'.pc = .idle) (hbg : l'.bg = false)
+    (hcb : l'.cb = none) (hdata : l'.data = l.data) (hseq : l'.seq = l.seq)
+    (hr : ∀ e o, l'.result = some (.value e o) → ∃ e' v, s.answer l.seq = some (e', v) ∧ e = some e' ∧ o = some v) :
+    ThrOK s t l' where
+  bg_pc := fun a => by rw [hbg] at a; cases a
+  seq_issued := fun a => absurd hpc ((hasSeq_iff _).1 a).2
+  at_c1 := fun _ b => by rw [hpc] at b; cases b
+  at_c2 := fun _ b => by rw [hpc] at b; cases b
+  cb_pc := fun q a => by rw [hcb] at a; cases a
+  completing := fun a => by rw [hpc] at a; cases a
+  data_answer := fun f a => h.data_answer f (hdata ▸ a)
+  at_w10 := fun _ b => by rw [hpc] at b; cases b
+  result_ok := fun e o a => by rw [hseq]; exact hr e o a
+  self_dispatch := fun a => absurd hpc ((hasSeq_iff _).1 a).2
+  dl_ttl := fun a => absurd hpc ((hasSeq_iff _).1 a).2
+  wdl_le := fun b => by rw [hpc] at b; cases b
+
+/-! ### `close()`: callbacks are dropped (`reg := false` on some or all cells), the counter may grow -/
+
+theorem GlobOK.clearReg {s s' : St} (h : GlobOK s)
+    (e_iss : s'.issued = s.issued) (e_out : s'.outstanding = s.outstanding) (e_ans : s'.answer = s.answer)
+    (e_chan : s'.chan = s.chan) (e_pop : s'.popper = s.popper) (e_compl : s'.completions = s.completions)
+    (e_cnt : s.seqCounter ≤ s'.seqCounter)
+    (e_cells : ∀ r, s'.cells r = s.cells r ∨ s'.cells r = { s.cells r with reg := false }) : GlobOK s' := by
+  have hobj : ∀ r, (s'.cells r).obj = (s.cells r).obj := fun r => by rcases e_cells r with e | e <;> rw [e]
+  have hexc : ∀ r, (s'.cells r).isExc = (s.cells r).isExc := fun r => by rcases e_cells r with e | e <;> rw [e]
+  have hrdy : ∀ r, (s'.cells r).ready = (s.cells r).ready := fun r => by rcases e_cells r with e | e <;> rw [e]
+  have hreg : ∀ r, (s'.cells r).reg = true → (s.cells r).reg = true := fun r x => by
+    rcases e_cells r with e | e <;> rw [e] at x
+    · exact x
+    · cases x
+  exact {
+    issued_lt := fun q hq => Nat.lt_of_lt_of_le (h.issued_lt q (e_iss ▸ hq)) e_cnt
+    issued_nodup := e_iss ▸ h.issued_nodup
+    fresh := fun r hr => by
+      obtain ⟨a, b, c, d, e⟩ := h.fresh r (Nat.le_trans e_cnt hr)
+      refine ⟨?_, by rw [e_ans]; exact b, by rw [e_out]; exact c, by rw [e_pop]; exact d, by rw [e_compl]; exact e⟩
+      rcases e_cells r with x | x
+      · exact x.trans a
+      · rw [x, a]
+    out_nodup := e_out ▸ h.out_nodup
+    out_unanswered := fun q hq => by
+      obtain ⟨a, b⟩ := h.out_unanswered q (e_out ▸ hq)
+      exact ⟨by rw [e_ans]; exact a, Nat.lt_of_lt_of_le b e_cnt⟩
+    reg_clean := fun r x => by
+      rw [e_pop, e_compl, hrdy]; exact h.reg_clean r (hreg r x)
+    chan_answer := fun f hf => by rw [e_ans]; exact h.chan_answer f (e_chan ▸ hf)
+    obj_answer := fun r v x => by rw [e_ans]; exact h.obj_answer r v ((hobj r).symm.trans x)
+    exc_answer := fun r e x => by rw [e_ans]; exact h.exc_answer r e ((hexc r).symm.trans x)
+    compl_le := fun r => by rw [e_compl]; exact h.compl_le r
+    ready_compl := fun r x => by
+      rw [e_compl, hobj, hexc]; exact h.ready_compl r ((hrdy r).symm.trans x) }
+
+theorem ThrOK.clearReg {s s' : St} {u : Tid} {l : Loc} (h : ThrOK s u l) (g : GlobOK s)
+    (e_iss : s'.issued = s.issued) (e_out : s'.outstanding = s.outstanding) (e_ans : s'.answer = s.answer)
+    (e_pop : s'.popper = s.popper) (e_compl : s'.completions = s.completions) (e_now : s'.now = s.now)
+    (e_cells : ∀ r, s'.cells r = s.cells r ∨ s'.cells r = { s.cells r with reg := false }) : ThrOK s' u l := by
+  have hobj : ∀ r, (s'.cells r).obj = (s.cells r).obj := fun r => by rcases e_cells r with e | e <;> rw [e]
+  have hexc : ∀ r, (s'.cells r).isExc = (s.cells r).isExc := fun r => by rcases e_cells r with e | e <;> rw [e]
+  have hrdy : ∀ r, (s'.cells r).ready = (s.cells r).ready := fun r => by rcases e_cells r with e | e <;> rw [e]
+  have httl : ∀ r, (s'.cells r).ttl = (s.cells r).ttl := fun r => by rcases e_cells r with e | e <;> rw [e]
+  refine h.transfer (fun _ x => e_iss ▸ x) ?_ ?_ ?_ (fun _ _ x => e_ans ▸ x) (fun x => (hrdy _).trans x) ?_
+    (fun _ _ => httl _) (e_now ▸ Nat.le_refl _)
+  · intro _ _ ⟨a, b, c, d, e⟩
+    refine ⟨?_, by rw [e_ans]; exact b, by rw [e_out]; exact c, by rw [e_pop]; exact d, by rw [e_compl]; exact e⟩
+    rcases e_cells l.seq with x | x
+    · exact x.trans a
+    · rw [x, a]
+  · intro _ _ a b
+    rw [e_ans, e_out]; exact ⟨a, b⟩
+  · intro q hq
+    refine ⟨by rw [e_pop]; exact hq, by rw [e_compl], ?_, hrdy q, hexc q, hobj q⟩
+    rcases e_cells q with x | x
+    · rw [x]
+    · rw [x]
+      cases hr : (s.cells q).reg with
+      | false => rfl
+      | true => rw [(g.reg_clean q hr).1] at hq; cases hq
+  · intro _ a b
+    rw [e_pop] at b
+    exact ⟨(hrdy _).symm.trans a, b⟩
+
 /-- assemble `InvS'` after a step of thread `t` in which no thread acquires a sequence number -/
 theorem InvS'.step' {s s' : St} (t : Tid) (l' : Loc) (h : InvS' s) (hl : s'.loc = (setLoc s t l').loc)
     (hseq : l'.hasSeq = true → (s.loc t).hasSeq = true ∧ l'.seq = (s.loc t).seq)
